@@ -95,6 +95,26 @@ def assigned_names(n: Node) -> set:
     return out
 
 
+def _join(a: frozenset, b: frozenset) -> frozenset:
+    """Facts holding on both incoming paths: common clauses, plus pairwise disjunctions of the clauses that
+    hold on one side only (bounded), e.g. {force} | {not force, available} -> {force or available}."""
+    common = a & b
+    oa, ob = a - common, b - common
+    extra = set()
+    if oa and ob and len(oa) * len(ob) <= 36:
+        for x in oa:
+            for y in ob:
+                u = x | y
+                if len(u) > 3:
+                    continue
+                # drop tautologies (literal and its negation)
+                if any((t, not p) in u for (t, p) in u):
+                    continue
+                extra.add(u)
+    # keep disjunctions already known on the joined side (monotone: only shrink)
+    return frozenset(common | extra)
+
+
 class MustFacts:
     def __init__(self, g: CFG, normal_only: bool = True):
         self.g = g
@@ -129,7 +149,7 @@ class MustFacts:
                         inn[b] = out
                         changed = True
                     else:
-                        new = inn[b] & out
+                        new = _join(inn[b], out)
                         if new != inn[b]:
                             inn[b] = new
                             changed = True
